@@ -1,12 +1,12 @@
 # C05 — honest Schnorr / Chaum-Pedersen / plaintext-knowledge / decryption proofs verify
 from props.util import *
 
-TRUSTED = BASE_TRUSTED + ["ristretto255 group laws (hypothesis `Laws B mem` of the generic theorems); ristretto runs are implementation-only"]
+TRUSTED = BASE_TRUSTED + ["ristretto255 group laws are the hypothesis `Laws B mem` of the generic theorems; the ristretto runs are tied to the executable Gallina ristretto255 model (Model/Ristretto.v, RBackend.v) by correspondence, not proved"]
 RULE = ("exhaustive (secret, nonce) over Z_q x Z_q of p=23 for every base in the group (default and explicit, incl. the "
         "identity and g) on num-bigint (nonce chosen through the scripted RNG) and random nonces on malachite; boundary "
         "secrets 0,1,q-1 and random at 16/62/2048 bits; labels empty/short/long; every prover output and every verifier "
         "decision compared with the Gallina model computing the real SHA-512 transcript; serialization in the loop; "
-        "ristretto prove->verify on the implementation")
+        "ristretto: Schnorr/CP/popk/decryption proofs with default, explicit-standard and derived bases, prover outputs and decisions compared with the Gallina ristretto255 model")
 
 
 def run(env):
@@ -61,6 +61,7 @@ def run(env):
             if pstr != "2048":
                 add_schnorr(ctx, 5, 1, "x:")           # base = identity
                 add_schnorr(ctx, q - 1, g, "x:")       # explicit standard generator
+                add_cp(ctx, q - 1, g, rnd_member(r, ctx), "x:01")   # explicit standard generator as first CP base
     o1 = env.harness(stage1)
     stage2 = []
     for c, o in zip(stage1, o1):
@@ -81,6 +82,12 @@ def run(env):
         elif c["op"] == "cp_prove":
             items.append((c, ctx, "cp_prove_r", a[:6] + draws[:1], proof))
             stage2.append({"ctx": ctx, "op": "cp_verify", "args": [a[1], a[2], a[3], a[4], proof, a[5]], "_src": c, "tag": "verify"})
+            # default first base <-> explicit standard generator (both directions)
+            p, q, g = pq(ctx)
+            if a[3] is None:
+                stage2.append({"ctx": ctx, "op": "cp_verify", "args": [a[1], a[2], str(g), a[4], proof, a[5]], "_src": c, "tag": "verify-interchange"})
+            elif int(a[3]) == g:
+                stage2.append({"ctx": ctx, "op": "cp_verify", "args": [a[1], a[2], None, a[4], proof, a[5]], "_src": c, "tag": "verify-interchange"})
             stage2.append({"ctx": ctx, "op": "ser_cp", "args": [proof], "_src": c, "_proof": proof, "tag": "wire"})
         elif c["op"] == "popk":
             items.append((c, ctx, "popk_r", a[:4] + draws[:1], proof))
@@ -107,19 +114,47 @@ def run(env):
     fails = env.tie(items, "C05", shard=300)
     # ristretto: prove -> verify on the implementation
     L = 2 ** 252 + 27742317777372353535851937790883648493
+    GEN = "x:e2f2ae0a6abc4e71a884a961c500515f58e30b6aa582dd8db6a65945e08d2d76"
+    xs = [0, 1, L - 1] + [r.randrange(L) for _ in range(2 if env.quick else 20)]
+    hs = env.harness([{"ctx": "R", "op": "generators", "args": ["2", "x:6335"], "tag": "ristretto"}])[0]
     rs1 = []
-    for x in [0, 1, L - 1] + [r.randrange(L) for _ in range(3 if env.quick else 30)]:
-        rs1.append({"ctx": "R", "op": "pk_of_sk", "args": [str(x)], "_x": x, "tag": "ristretto"})
+    for x in xs:
+        for b in (GEN, hs[0], hs[1]):
+            rs1.append({"ctx": "R", "op": "epow", "args": [b, str(x)], "_x": x, "_b": b, "tag": "ristretto"})
     ro1 = env.harness(rs1)
+    pub = {(c["_x"], c["_b"]): o for c, o in zip(rs1, ro1)}
     rs2 = []
-    for c, o in zip(rs1, ro1):
-        rs2.append({"ctx": "R", "op": "schnorr_prove", "args": [str(c["_x"]), o, None, "x:aa", script(r, 256)], "tag": "ristretto"})
-        rs2.append({"ctx": "R", "op": "cp_prove", "args": [str(c["_x"]), o, o, None, ro1[0] if False else "x:" + "e2f2ae0a6abc4e71a884a961c500515f58e30b6aa582dd8db6a65945e08d2d76", "x:", script(r, 256)], "tag": "ristretto", "_skip": True})
-    rs2 = [c for c in rs2 if not c.get("_skip")]
+    for i, x in enumerate(xs):
+        lab = ["x:", "x:aa", hexb(r.randbytes(70))][i % 3]
+        rs2.append({"ctx": "R", "op": "schnorr_prove", "args": [str(x), pub[(x, GEN)], None, lab, script(r, 256)], "tag": "ristretto"})
+        rs2.append({"ctx": "R", "op": "schnorr_prove", "args": [str(x), pub[(x, GEN)], GEN, lab, script(r, 256)], "tag": "ristretto"})
+        rs2.append({"ctx": "R", "op": "schnorr_prove", "args": [str(x), pub[(x, hs[0])], hs[0], lab, script(r, 256)], "tag": "ristretto"})
+        rs2.append({"ctx": "R", "op": "cp_prove", "args": [str(x), pub[(x, GEN)], pub[(x, hs[1])], None, hs[1], lab, script(r, 256)], "tag": "ristretto"})
+        rs2.append({"ctx": "R", "op": "cp_prove", "args": [str(x), pub[(x, GEN)], pub[(x, hs[1])], GEN, hs[1], lab, script(r, 256)], "tag": "ristretto"})
+        rs2.append({"ctx": "R", "op": "cp_prove", "args": [str(x), pub[(x, hs[0])], pub[(x, hs[1])], hs[0], hs[1], lab, script(r, 256)], "tag": "ristretto"})
+        rs2.append({"ctx": "R", "op": "popk", "args": [str(x), hs[1], pub[(x, GEN)], lab, script(r, 256)], "tag": "ristretto"})
+        rs2.append({"ctx": "R", "op": "dec_proof", "args": [str(x), pub[(x, GEN)], pub[(x, hs[1])], hs[0], hs[1], lab, script(r, 256)], "tag": "ristretto"})
     ro2 = env.harness(rs2)
-    rs3 = [{"ctx": "R", "op": "schnorr_verify", "args": [c["args"][1], None, o[0], c["args"][3]], "_src": c, "tag": "ristretto"} for c, o in zip(rs2, ro2) if isinstance(o, list)]
+    rs3 = []
+    for c, o in zip(rs2, ro2):
+        a = c["args"]
+        if not isinstance(o, list):
+            env.violation("ristretto %s failed for a true statement: %s" % (c["op"], o), {"kind": "battery", "case": c, "out": o}); continue
+        pf = o[0]
+        if c["op"] == "schnorr_prove":
+            alts = [a[2]] + ([GEN] if a[2] is None else ([None] if a[2] == GEN else []))
+            for b in alts:
+                rs3.append({"ctx": "R", "op": "schnorr_verify", "args": [a[1], b, pf, a[3]], "_src": c, "tag": "ristretto"})
+        elif c["op"] == "cp_prove":
+            alts = [a[3]] + ([GEN] if a[3] is None else ([None] if a[3] == GEN else []))
+            for b in alts:
+                rs3.append({"ctx": "R", "op": "cp_verify", "args": [a[1], a[2], b, a[4], pf, a[5]], "_src": c, "tag": "ristretto"})
+        elif c["op"] == "popk":
+            rs3.append({"ctx": "R", "op": "popk_verify", "args": [a[1], a[2], pf, a[3]], "_src": c, "tag": "ristretto"})
+        else:
+            rs3.append({"ctx": "R", "op": "verify_decryption", "args": [a[1], a[2], a[3], a[4], pf, a[5]], "_src": c, "tag": "ristretto"})
     for c, o in zip(rs3, env.harness(rs3)):
         if o is not True:
-            env.violation("honest ristretto Schnorr proof rejected", {"kind": "battery", "case": [c["_src"], c]})
+            env.violation("honest ristretto %s proof rejected by %s: %s" % (c["_src"]["op"], c["op"], o), {"kind": "battery", "case": [c["_src"], c], "out": o})
     if fails:
         env.tie_violation("C05", fails)
